@@ -258,3 +258,93 @@ def gen_c17(rng, focus, k=None, maxops=40):
         g.emit(f"poll 0 #1 #1 {p} c:#9 offset:0 100000 0")
     g.emit("topic 0 #1 #1")
     return cfg, g.ops
+
+
+def gen_retention(rng, focus, k=None, maxops=40):
+    """C14 / C15 / C16: small segments, topic expiry and/or size limit, clock jumps, maintenance passes,
+    restarts; `topic` (+ `ls` for C16) before sends so that the gate and the figures are judged on the
+    implementation's own reported sizes."""
+    seg = 600
+    overrides = {"seg": seg, "dedup": rng.choice([0, 0, 1]) if focus == "C16" else 0,
+                 "save": rng.choice([1, 2, 3, 10])}
+    if focus == "C15" or rng.random() < 0.4:
+        overrides["delete_oldest"] = rng.choice([0, 1])
+    cfg = draw_cfg(rng, k, overrides)
+    g = Gen(rng, focus, nparts=rng.choice([1, 1, 2]))
+    expiry = "never"
+    maxsize = "unlimited"
+    if focus == "C14" or rng.random() < 0.4:
+        expiry = str(rng.choice([2_000_000, 5_000_000, 20_000_000]))
+    if focus == "C15" or rng.random() < 0.3:
+        maxsize = str(rng.choice([seg, seg, 2 * seg, 3 * seg, 6 * seg]))
+    preamble(g, expiry, maxsize)
+    n = rng.randint(10, maxops)
+    w = {"send": 40, "poll": 14, "maintain": 12, "jump": 8, "restart": 5, "full": 8, "topic": 8,
+         "flush": 3, "save": 3, "purge": 2, "update": 3, "stats": 2, "badlimit": 2}
+    if focus == "C14":
+        w.update({"jump": 14, "maintain": 16})
+    if focus == "C16":
+        w.update({"topic": 18, "stats": 6, "purge": 5, "parts": 4})
+    kinds = list(w)
+    weights = [w[x] for x in kinds]
+    for _ in range(n):
+        kind = rng.choices(kinds, weights)[0]
+        if kind == "send":
+            g.emit("topic 0 #1 #1")
+            g.send(0.3 if cfg["dedup"] == 1 else 0.0)
+            if focus in ("C15", "C16") and rng.random() < 0.5:
+                g.emit("topic 0 #1 #1")
+                if focus == "C16":
+                    g.emit("ls")
+        elif kind == "poll":
+            g.poll()
+        elif kind == "maintain":
+            g.full_poll()
+            g.emit("maintain")
+            g.full_poll()
+            g.emit("topic 0 #1 #1")
+            if focus == "C16":
+                g.emit("ls")
+        elif kind == "jump":
+            g.tick(500_000, 8_000_000)
+        elif kind == "restart":
+            g.observe()
+            g.emit("restart")
+            g.observe()
+        elif kind == "full":
+            g.full_poll()
+        elif kind == "topic":
+            g.emit("topic 0 #1 #1")
+            if focus == "C16":
+                g.emit("ls")
+        elif kind == "flush":
+            g.emit(f"flush 0 #1 #1 {g.part()} 0")
+        elif kind == "save":
+            g.emit("save")
+        elif kind == "purge":
+            g.emit("purge-topic 0 #1 #1")
+            for p in g.sent:
+                g.sent[p] = 0
+        elif kind == "update":
+            e = rng.choice(["never", "1000000", "5000000"])
+            m = rng.choice(["unlimited", str(seg), str(2 * seg), str(4 * seg)])
+            g.emit(f"update-topic 0 #1 #1 t1 {e} {m} -")
+        elif kind == "stats":
+            g.emit("stats 0")
+        elif kind == "badlimit":
+            g.emit(f"update-topic 0 #1 #1 t1 never {rng.choice([1, seg - 1])} -")
+            g.emit(f"create-topic 0 #1 - small 1 never {seg - 1} -")
+        elif kind == "parts":
+            if rng.random() < 0.5:
+                g.emit("create-parts 0 #1 #1 1")
+                g.nparts += 1
+                g.sent[g.nparts] = 0
+            elif g.nparts > 1:
+                g.emit("delete-parts 0 #1 #1 1")
+                del g.sent[g.nparts]
+                g.nparts -= 1
+    g.observe()
+    g.emit("stats 0")
+    if focus == "C16":
+        g.emit("ls")
+    return cfg, g.ops
